@@ -3503,7 +3503,9 @@ namespace jsonschema {
                 return walk_state::advance;
             }
 
-            eval_context<Json> this_context(context, this->keyword());
+            // the subschema applies to the items, not to this array: what it evaluates inside an item 
+            // (an inner array or object) must not be recorded as evaluated items/properties of this instance
+            eval_context<Json> this_context(context, this->keyword(), evaluation_flags{});
 
             std::size_t contains_count = 0;
             collecting_error_listener<Json> local_reporter;
